@@ -17,10 +17,17 @@ IsEvent(a) == l <= Len(TheTrace) /\ Ev.e = a /\ l' = l + 1 /\ UNCHANGED tid
 Stutter == UNCHANGED vars
 
 (* process start: CounterToken.__init__ recounts under the ipc lock *)
+(* ... after having written the total it was given into token.info (under the same lock; logged just before the write) *)
+DeclareWrite(p, n) ==
+  /\ alive[p] /\ ipc = "free" /\ cs[p] = None
+  /\ info' = [info EXCEPT !.total = n, !.ptotal[p] = n, !.max = IF n > @ THEN n ELSE @,
+                          !.pending = [q \in Procs |-> IF q # p /\ alive[q] /\ obs[q] /\ n # info.total THEN TRUE ELSE @[q]]]
+  /\ UNCHANGED <<files, ipc, cs, alive, obs, avail, cache, watching, pend, jobst, dstat, notify, reclaiming, wl>>
 StartProc(p) ==
   /\ alive[p] /\ ipc = "free" /\ cs[p] = None
   /\ (Readable \/ FixF5)
-  /\ avail' = [avail EXCEPT ![p] = Total - Sum({j \in OnDisk : files[j] = "written"})]
+  /\ avail' = [avail EXCEPT ![p] = info.total - Sum({j \in OnDisk : files[j] = "written"})]
+  /\ info' = [info EXCEPT !.ptotal[p] = info.total]
   /\ cache' = [cache EXCEPT ![p] = {j \in OnDisk : files[j] = "written"}]
   /\ watching' = [watching EXCEPT ![p] = @ \cup {j \in OnDisk : files[j] = "written"}]
   /\ files' = [j \in Jobs |-> IF files[j] = "empty" THEN "absent" ELSE files[j]]
@@ -31,11 +38,12 @@ RelLockRecount(p, j) ==
   /\ alive[p] /\ cs[p] = None /\ ipc = "free" /\ Owner[j] = p /\ jobst[j] \in {"aborting", "ended"}
   /\ IF Readable \/ FixF5
      THEN /\ ipc' = p /\ cs' = [cs EXCEPT ![p] = [kind |-> "rel", job |-> j, step |-> "counted"]]
-          /\ avail' = [avail EXCEPT ![p] = Total - Sum({k \in OnDisk : files[k] = "written"})]
+          /\ avail' = [avail EXCEPT ![p] = info.total - Sum({k \in OnDisk : files[k] = "written"})]
+          /\ info' = [info EXCEPT !.ptotal[p] = info.total]
           /\ cache' = [cache EXCEPT ![p] = {k \in OnDisk : files[k] = "written"}]
           /\ watching' = [watching EXCEPT ![p] = @ \cup ({k \in OnDisk : files[k] = "written"} \ cache[p])]
           /\ files' = [k \in Jobs |-> IF files[k] = "empty" THEN "absent" ELSE files[k]]
-     ELSE UNCHANGED <<ipc, cs, avail, cache, watching, files>>
+     ELSE UNCHANGED <<ipc, cs, avail, cache, watching, files, info>>
   /\ UNCHANGED <<alive, obs, pend, jobst, dstat, notify, reclaiming, wl>>
 
 (* an observer reports that it has cached a foreign token file and started a reclaim thread for it; the file was
@@ -43,13 +51,15 @@ RelLockRecount(p, j) ==
 CachedEv(p, j) ==
   /\ alive[p] /\ obs[p] /\ cs[p] = None /\ j \notin cache[p]
   /\ cache' = [cache EXCEPT ![p] = @ \cup {j}] /\ watching' = [watching EXCEPT ![p] = @ \cup {j}]
-  /\ UNCHANGED <<files, ipc, cs, alive, obs, avail, pend, jobst, dstat, notify, reclaiming, wl>>
+  /\ UNCHANGED <<files, ipc, cs, alive, obs, avail, pend, jobst, dstat, notify, reclaiming, wl, info>>
 
 (* the token cannot even be opened: an unparsable file left by a dead writer (pinned behaviour) *)
 StartFails(p) == /\ ~Readable /\ ~FixF5 /\ UNCHANGED vars
 
 Logged ==
-  \/ IsEvent("tok.init") /\ StartProc(Ev.p) /\ avail'[Ev.p] = Ev.available
+  \/ IsEvent("tok.info.write") /\ DeclareWrite(Ev.p, Ev.total)
+  \/ IsEvent("tok.init") /\ StartProc(Ev.p) /\ avail'[Ev.p] = Ev.available /\ info.total = Ev.total
+  \/ IsEvent("tok.evt.info") /\ OnInfo(Ev.p) /\ info'.ptotal[Ev.p] = Ev.total /\ Ev.delta = info.total - info.ptotal[Ev.p]
   \/ IsEvent("h.start") /\ Stutter
   \/ IsEvent("tok.init.error") /\ StartFails(Ev.p)
   \/ IsEvent("h.submit") /\ Stutter          \* (the call; its two steps are logged by the scheduler itself)
@@ -64,7 +74,7 @@ Logged ==
   \/ IsEvent("tok.rel.lock") /\ RelLockRecount(Ev.p, Ev.job)
   \/ IsEvent("tok.rel.ok") /\ RelOk(Ev.p) /\ avail'[Ev.p] = Ev.available
   \/ IsEvent("tok.rel.missing") /\ cs' = [cs EXCEPT ![Ev.p] = None] /\ ipc' = "free"
-        /\ UNCHANGED <<files, alive, obs, avail, cache, watching, pend, jobst, dstat, notify, reclaiming, wl>>
+        /\ UNCHANGED <<files, alive, obs, avail, cache, watching, pend, jobst, dstat, notify, reclaiming, wl, info>>
   \/ IsEvent("tok.file.delete") /\ (IF cs[Ev.p].kind = "rel" /\ cs[Ev.p].job = Ev.job THEN RelDelete(Ev.p) ELSE ReclaimDelete(Ev.p, Ev.job))
   \/ IsEvent("tok.watch.start") /\ Stutter      \* (the thread may announce itself before the handler that started it reports)
   \/ IsEvent("tok.watch.reclaim") /\ ReclaimDecide(Ev.p, Ev.job)
@@ -79,14 +89,14 @@ Logged ==
   \/ IsEvent("h.note") /\ Stutter
   (* the harness has waited for everything to settle: a waiting job whose request fits must have been told *)
   \/ /\ IsEvent("h.quiescent") /\ Stutter
-     /\ \A j \in Jobs : ((jobst[j] = "submitted" /\ alive[Owner[j]] /\ Req[j] <= Total - Sum(Holders)) => dstat[j] = "OK")
+     /\ \A j \in Jobs : ((jobst[j] = "submitted" /\ alive[Owner[j]] /\ Req[j] <= info.total - Sum(Holders)) => dstat[j] = "OK")
      (* ... and what a finished job (or a job that never started because its scheduler died) held has come back *)
      /\ \A k \in Jobs : ((jobst[k] \in {"released", "ended"} \/ (jobst[k] = "holding" /\ ~alive[Owner[k]])) => files[k] = "absent")
 
 TraceNext == Logged
 
 WlOf(t) == [owner |-> [j \in Jobs |-> IF j \in DOMAIN t.owner THEN t.owner[j] ELSE "p1"],
-            req |-> [j \in Jobs |-> IF j \in DOMAIN t.req THEN t.req[j] ELSE 1], total |-> t.total]
+            req |-> [j \in Jobs |-> IF j \in DOMAIN t.req THEN t.req[j] ELSE 1], total |-> t.total, totals |-> {}]
 TraceInit == /\ tid \in DOMAIN Traces /\ InitWith(WlOf(Traces[tid].wl)) /\ l = 1
 TraceSpec == TraceInit /\ [][TraceNext]_tvars
 
